@@ -3,12 +3,13 @@
 // Contracts for package mem/vm/mmuCache, property C03 (comment-only; read by /verif/engine, never compiled into a build).
 // C03, decidable part: "No result depends on map iteration order".
 //
-// ctrlMiddleware.endInflightTasks (Reset path) ends the req_out task BottomReqID of every entry of the MAP
-// State.InflightReqs (keyed by the forwarded request's ID, which is also the entry's BottomReqID: c03Keyed). The observable
-// effect is the SEQUENCE of TaskEnd hook invocations, logged in the ghost (c03EndN, c03EndSeq). Order-independence: the
-// log is pinned as a function of the map's contents -- its key set in increasing order (members, complete, deterministic).
-// (Before /repo commit 8468750f the function ranged over the map directly and the hooks ran in Go's randomized map order:
-// 200 identical resets with 8 in-flight requests gave 8 distinct TaskEnd orders. Now: slices.Sorted(maps.Keys(m)).)
+// ctrlMiddleware.endInflightTasks (Reset path) ends the req_out task BottomReqID of every entry of the MAP State.InflightReqs
+// (keyed by the forwarded request's ID, which is also the entry's BottomReqID: c03Keyed).
+// The observable effect is the SEQUENCE of TaskEnd hook invocations (what every tracer attached to the component sees, e.g.
+// the row order of a DBTracer's "trace" table), logged in the ghost (c03EndN, c03EndSeq). Order-independence: the log is
+// pinned as a function of the map's CONTENTS -- exactly its keys (members, complete), in increasing order (deterministic).
+// History: before /repo commit 8468750f the function ranged over the map directly and the hooks ran in Go's randomized map
+// order (200 identical resets with 8 entries gave 8 distinct TaskEnd orders); the order clauses were not provable then.
 package mmuCache
 
 // ---- trusted: tracing entry points end in arbitrary user hooks (assumed not to touch the component); EndTaskOnReset is logged.
@@ -21,30 +22,12 @@ package mmuCache
 //@ ext tracing.EndReqInOnReset(domain, id)
 //@   trusted
 //@   assigns nothing
+// slices.Sorted(maps.Keys(m)) is modelled natively by the engine (trusted standard library): a fresh, strictly ascending
+// slice of exactly the keys of m; SortedKeys_pos[k] is the index of key k.
 
-// ---- trusted: standard library iterators. maps.Keys(m) is the (lazy) sequence of m's keys; slices.Sorted(seq) collects a
-// sequence into a fresh slice in ascending order. Modelled for the nested call slices.Sorted(maps.Keys(m)) only: the ghost
-// set c03KeySet is the key set handed out by the LAST maps.Keys call; Sorted's result is the strictly ascending enumeration
-// of that set (map keys are distinct). Witnesses: Sorted_n = len(result), Sorted_at[i] = result[i], Sorted_idx[k] = index of key k.
-//@ ghost var c03KeySet set
-//@ ext maps.Keys(m)
-//@   trusted
-//@   ensures forall k int :: c03KeySet[k] <==> (k in m)
-//@   assigns c03KeySet
-//@ ext slices.Sorted(seq)
-//@   trusted
-//@   witness n int = 0
-//@   witness at map = idperm
-//@   witness idx map = idperm
-//@   ensures n == len(result) && 0 <= n && (forall i in 0..len(result) :: at[i] == result[i])
-//@   ensures forall i int :: 0 <= i && i + 1 < n ==> at[i] < at[i+1]
-//@   ensures forall i int :: 0 <= i && i < n ==> c03KeySet[at[i]] && idx[at[i]] == i
-//@   ensures forall k int :: c03KeySet[k] ==> 0 <= idx[k] && idx[k] < n && at[idx[k]] == k
-//@   assigns nothing
-
+//@ pred c03LogKeeps(from) = forall k int :: k < from ==> c03EndSeq[k] == old(c03EndSeq)[k]
 //@ func c03IR(m) = m.comp.State.InflightReqs
 //@ pred c03Keyed(m) = forall a uint64 :: (a in c03IR(m)) ==> c03IR(m)[a].BottomReqID == a
-//@ pred c03LogKeeps(from) = forall k int :: k < from ==> c03EndSeq[k] == old(c03EndSeq)[k]
 
 //@ fn (*ctrlMiddleware).endInflightTasks
 //@   property C03
@@ -52,7 +35,7 @@ package mmuCache
 //@   label C03.endInflightTasks.members
 //@   ensures old(c03EndN) <= c03EndN && (forall k int :: old(c03EndN) <= k && k < c03EndN ==> (c03EndSeq[k] in c03IR(m)))
 //@   label C03.endInflightTasks.complete
-//@   ensures forall a uint64 :: (a in c03IR(m)) ==> old(c03EndN) <= old(c03EndN) + Sorted_idx[a] && old(c03EndN) + Sorted_idx[a] < c03EndN && c03EndSeq[old(c03EndN) + Sorted_idx[a]] == a
+//@   ensures forall a uint64 :: (a in c03IR(m)) ==> 0 <= SortedKeys_pos[a] && old(c03EndN) + SortedKeys_pos[a] < c03EndN && c03EndSeq[old(c03EndN) + SortedKeys_pos[a]] == a
 //@   label C03.endInflightTasks.log.keeps
 //@   ensures c03LogKeeps(old(c03EndN))
 // ORDER: a function of the contents alone = increasing key
@@ -60,8 +43,13 @@ package mmuCache
 //@   ensures forall k int :: old(c03EndN) <= k && k + 1 < c03EndN ==> c03EndSeq[k] < c03EndSeq[k+1]
 //@   label C03.endInflightTasks.deterministic.first2
 //@   ensures old(c03EndN) + 2 <= c03EndN ==> c03EndSeq[old(c03EndN)] < c03EndSeq[old(c03EndN) + 1]
-//@   assigns c03EndN, c03EndSeq, c03KeySet
-//@   loop 0: invariant -1 <= rangeindex && rangeindex < Sorted_n && c03EndN == old(c03EndN) + rangeindex + 1
-//@   loop 0: invariant c03LogKeeps(old(c03EndN)) && c03Keyed(m)
+//@   assigns c03EndN, c03EndSeq
+//@   loop 0: invariant -1 <= rangeindex && rangeindex < len(c03IR(m)) && c03EndN == old(c03EndN) + rangeindex + 1 && c03LogKeeps(old(c03EndN)) && c03Keyed(m)
+//@   label C03.endInflightTasks.last.atloop
+//@   loop 0: invariant rangeindex >= 0 ==> (c03EndSeq[c03EndN - 1] in c03IR(m)) && SortedKeys_pos[c03EndSeq[c03EndN - 1]] == rangeindex
+//@   label C03.endInflightTasks.members.atloop
+//@   loop 0: invariant forall k int :: old(c03EndN) <= k && k < c03EndN ==> (c03EndSeq[k] in c03IR(m)) && SortedKeys_pos[c03EndSeq[k]] == k - old(c03EndN)
+//@   label C03.endInflightTasks.complete.atloop
+//@   loop 0: invariant forall a uint64 :: (a in c03IR(m)) && SortedKeys_pos[a] <= rangeindex ==> c03EndSeq[old(c03EndN) + SortedKeys_pos[a]] == a
 //@   label C03.endInflightTasks.deterministic.atloop
-//@   loop 0: invariant forall i int :: 0 <= i && i <= rangeindex ==> c03EndSeq[old(c03EndN) + i] == Sorted_at[i]
+//@   loop 0: invariant forall k int :: old(c03EndN) <= k && k + 1 < c03EndN ==> c03EndSeq[k] < c03EndSeq[k+1]
